@@ -1216,14 +1216,14 @@ func (e *Enc) encodeConvert(st *bstate, x *ssa.Convert) {
 	case fs == "Slice" && ts == "Str": // string(bytes)
 		el := from.Underlying().(*types.Slice).Elem()
 		c := e.W.elemComp(el)
-		r := e.fresh("strof", "Str")
-		arr := app("select", e.heapVar(st, c), app("sbase", v.T))
-		e.assert(sEq(app("slen", r), app("slength", v.T)))
-		e.assert(fmt.Sprintf("(forall ((i Int)) (! (=> (and (<= 0 i) (< i (slength %s))) (= (sat %s i) (select %s (+ (soff %s) i)))) :pattern ((sat %s i))))", v.T, r, arr, v.T, r))
-		e.setVal(x, Val{T: r})
 		if b, ok := el.Underlying().(*types.Basic); !ok || b.Kind() != types.Uint8 {
 			e.note("string([]rune) conversion approximated")
 		}
+		// same term as the specification-level bytes(s): the string made of the slice's current content
+		e.W.declareStrOfArr()
+		r := e.fresh("strof", "Str")
+		e.assert(sEq(r, app("strofarr", app("select", e.heapVar(st, c), app("sbase", v.T)), app("soff", v.T), app("slength", v.T))))
+		e.setVal(x, Val{T: r})
 	case fromInt && ts == "Str": // string(rune)
 		r := e.fresh("strofrune", "Str")
 		e.assert(sImp(sAnd(app("<=", "0", v.T), app("<", v.T, "128")), sEq(r, app("sbyte", v.T))))
